@@ -493,6 +493,43 @@ fn table_cipher_end_to_end(check: &Check, only: Option<&str>) {
                     Err(e) => return Err(Fail::new("extended-table-cipher:name-not-read", format!("{version:?} archive with {n} files: {:?}: {e}", name(i)))),
                 }
             }
+            // the table readers given the stored (encrypted) table vs the same readers given the body
+            // decrypted as ONE block by the reference cipher (key 0 = already plain): every lookup agrees
+            if let Some(v4) = a.header().v4_data.clone() {
+                let raw = std::fs::read(&p).map_err(|e| Fail::new("harness:io", e.to_string()))?;
+                let (hp, bp) = (a.header().het_table_pos.unwrap_or(0) as usize, a.header().bet_table_pos.unwrap_or(0) as usize);
+                let (hs, bs) = (v4.het_table_size_64 as usize, v4.bet_table_size_64 as usize);
+                if hp != 0 && bp != 0 && hp + hs <= raw.len() && bp + bs <= raw.len() && hs > 12 && bs > 12 {
+                    let reference = |pos: usize, size: usize, keyname: &[u8]| -> Vec<u8> {
+                        let mut plain = raw[pos..pos + size].to_vec();
+                        refcrypt::decrypt_bytes(&mut plain[12..], refcrypt::hash_string(keyname, refcrypt::HASH_FILE_KEY));
+                        plain
+                    };
+                    let hkey = refcrypt::hash_string(b"(hash table)", refcrypt::HASH_FILE_KEY);
+                    let bkey = refcrypt::hash_string(b"(block table)", refcrypt::HASH_FILE_KEY);
+                    let het_ref = wow_mpq::HetTable::read(&mut std::io::Cursor::new(reference(hp, hs, b"(hash table)")), 0, hs as u64, 0);
+                    let het_got = vcheck::engine::guard("HetTable::read", || wow_mpq::HetTable::read(&mut std::io::Cursor::new(&raw[hp..hp + hs]), 0, hs as u64, hkey))?;
+                    let bet_ref = wow_mpq::BetTable::read(&mut std::io::Cursor::new(reference(bp, bs, b"(block table)")), 0, bs as u64, 0);
+                    let bet_got = vcheck::engine::guard("BetTable::read", || wow_mpq::BetTable::read(&mut std::io::Cursor::new(&raw[bp..bp + bs]), 0, bs as u64, bkey))?;
+                    match (het_ref, het_got, bet_ref, bet_got) {
+                        (Ok(hr), Ok(hg), Ok(br), Ok(bg)) => {
+                            for i in 0..n {
+                                if hr.find_file(&name(i)) != hg.find_file(&name(i)) {
+                                    return Err(Fail::new("extended-table-cipher:het-table-decrypts-differently-from-reference", format!("{version:?}, {n} files, HET table of {hs} bytes: lookup of {:?} differs between the table decrypted by the reader and by the reference cipher", name(i))));
+                                }
+                                if br.get_file_hash(i as u32) != bg.get_file_hash(i as u32) {
+                                    return Err(Fail::new("extended-table-cipher:bet-table-decrypts-differently-from-reference", format!("{version:?}, {n} files, BET table of {bs} bytes: name hash 2 of file {i} differs between the table decrypted by the reader and by the reference cipher")));
+                                }
+                            }
+                            check.count(&format!("table-cipher-differential:{version:?}:het{}k:bet{}k", hs / 1024, bs / 1024), true);
+                        }
+                        (Ok(_), Err(e), _, _) | (_, _, Ok(_), Err(e)) => {
+                            return Err(Fail::new("extended-table-cipher:stored-table-does-not-load", format!("{version:?}, {n} files: the reader fails on the stored table ({e}) although the reference-decrypted table loads")));
+                        }
+                        _ => check.bump("table_cipher_differential_not_applicable", 1),
+                    }
+                }
+            }
             for i in 0..200 {
                 let absent = format!("Interface\\Glue\\set{}\\nofile_{i:05}.blp", i % 37);
                 if let Ok(Some(_)) = a.find_file(&absent) {
